@@ -30,6 +30,7 @@ import (
 	goparser "go/parser"
 	"go/printer"
 	"go/token"
+	"hash/fnv"
 	"math"
 	"os"
 	"path/filepath"
@@ -132,6 +133,7 @@ type c16Case struct {
 
 var c16Cur atomic.Value // *c16Case
 var c16Cases sync.Map    // global scope -> *c16Case, while the case is running
+var c16Recorded sync.Map // payload -> result of the recording run (see emit)
 
 type c16Gate struct{}
 
@@ -875,6 +877,9 @@ func c16Run(payload string) string {
 	if f[0] == "conc" {
 		return "R:" + c16Conc()
 	}
+	if r, ok := c16Recorded.LoadAndDelete(payload); ok {
+		return "R:" + r.(string)
+	}
 	if f[2] == "?" {
 		return "RECORD-TIMEOUT" // the harness could not record this case (counted; not a statement about the code)
 	}
@@ -952,17 +957,18 @@ func c16Gen(g *Gen) {
 		type recorded struct {
 			o0    string
 			steps []c16Step
+			res   string
 		}
 		ch := make(chan recorded, 1)
 		go func() {
-			o0, steps, _ := c16Exec(scn, gsGiven, lines, nil, "")
-			ch <- recorded{o0, steps}
+			o0, steps, res := c16Exec(scn, gsGiven, lines, nil, "")
+			ch <- recorded{o0, steps, res}
 		}()
-		var o0 string
+		var o0, res string
 		var steps []c16Step
 		select {
 		case r := <-ch:
-			o0, steps = r.o0, r.steps
+			o0, steps, res = r.o0, r.steps, r.res
 		case <-time.After(150 * time.Second):
 			g.Count("record-timeout")
 			o0 = "?"
@@ -973,7 +979,20 @@ func c16Gen(g *Gen) {
 				steps = append(steps, c16Step{lines[i], "0", "?"})
 			}
 		}
-		g.Emit(c16Payload(scn, gsGiven, o0, steps))
+		payload := c16Payload(scn, gsGiven, o0, steps)
+		// The recording run IS an execution of the real code on this case. Single-command cases are
+		// executed a second time (checking that the observations repeat) only for a sample of 1 in 8;
+		// for the others the result of the recording run is handed to Run. Cases with a history, and
+		// every replay (-one), are always executed again.
+		if len(lines) == 1 && o0 != "?" && len(steps) == 1 && steps[0].obs != "?" {
+			h := fnv.New32a()
+			h.Write([]byte(payload))
+			if h.Sum32()%8 != 0 {
+				c16Recorded.Store(payload, res)
+				g.Count("result-of-recording-run")
+			}
+		}
+		g.Emit(payload)
 	}
 	cmds := make([]string, 0)
 	for name := range interpreter.DebugCommandsMap {
